@@ -146,6 +146,61 @@ impl Part for C13 {
                         no_panic(&mut out, &format!("{} {:?}::from_bytes(valid key resized to {})", c.suite.kem.name(), kind, l), &kops.reserialize(kind, &b));
                     }
                 }
+                // boundary scalars and points: whatever deserialization ACCEPTS must then be usable without a panic
+                // (a key that is accepted and blows up on first use is a panic on attacker-controlled input as well)
+                let nsk = kops.size(KeyKind::Private);
+                let small = |d: u8| -> Vec<u8> {
+                    let mut b = vec![0u8; nsk];
+                    b[nsk - 1] = d;
+                    b
+                };
+                let mut sks: Vec<Vec<u8>> = vec![small(0), small(1), small(2), vec![0xff; nsk], vec![0x80; nsk]];
+                if let Some(n1) = c.suite.kem.neg_sk(&small(1)) {
+                    // n - 1, n, n + 1
+                    let mut n = n1.clone();
+                    for _ in 0..2 {
+                        for i in (0..n.len()).rev() {
+                            n[i] = n[i].wrapping_add(1);
+                            if n[i] != 0 {
+                                break;
+                            }
+                        }
+                        sks.push(n.clone());
+                    }
+                    sks.push(n1);
+                }
+                for (i, sk) in sks.iter().enumerate() {
+                    if kops.reserialize(KeyKind::Private, sk).ok().is_none() {
+                        continue;
+                    }
+                    let what = format!("{} private key #{} ({}) accepted by from_bytes, then", c.suite.kem.name(), i, crate::obs::hx(sk));
+                    no_panic(&mut out, &format!("{} sk_to_pk", what), &kops.sk_to_pk(sk));
+                    no_panic(&mut out, &format!("{} decap", what), &kops.decap(sk, None, &k.pk_s));
+                    no_panic(&mut out, &format!("{} setup_receiver", what), &ops.setup_receiver(&m, sk, &k.pk_s, &info));
+                    let m_auth = ModeSpec { kind: 2, psk: vec![], psk_id: vec![], sk_s: sk.clone(), pk_s: k.pk_s.clone() };
+                    let mut rng = ScriptRng::new(&k.ikm_e);
+                    no_panic(&mut out, &format!("{} setup_sender(Auth) with it as identity key", what), &ops.setup_sender(&m_auth, &k.pk_r, &info, &mut rng));
+                }
+                let npk = kops.size(KeyKind::Public);
+                let mut pks: Vec<Vec<u8>> = vec![vec![0u8; npk], vec![0xff; npk]];
+                if npk > 32 {
+                    let mut z = vec![0u8; npk];
+                    z[0] = 4;
+                    pks.push(z);
+                    pks.extend(c.suite.kem.point_x_zero());
+                    pks.extend(c.suite.kem.small_multiple(1));
+                }
+                for (i, pk) in pks.iter().enumerate() {
+                    if kops.reserialize(KeyKind::Public, pk).ok().is_none() {
+                        continue;
+                    }
+                    let what = format!("{} public key #{} accepted by from_bytes, then", c.suite.kem.name(), i);
+                    let mut rng = ScriptRng::new(&k.ikm_e);
+                    no_panic(&mut out, &format!("{} setup_sender to it", what), &ops.setup_sender(&m, pk, &info, &mut rng));
+                    no_panic(&mut out, &format!("{} setup_receiver with it as enc", what), &ops.setup_receiver(&m, &k.sk_r, pk, &info));
+                    let m_auth = ModeSpec { kind: 2, psk: vec![], psk_id: vec![], sk_s: vec![], pk_s: pk.clone() };
+                    no_panic(&mut out, &format!("{} setup_receiver(Auth) with it as sender key", what), &ops.setup_receiver(&m_auth, &k.sk_r, &k.pk_s, &info));
+                }
             }
             Entry::TagFromBytes => {
                 for l in lens(t, &[nt]) {
@@ -232,6 +287,22 @@ impl Part for C13 {
                 }
             }
             Entry::SetupPsk => {
+                // the empty bundle is a legal PSK-mode input (C15): setup and the single-shot forms must cope with it
+                {
+                    let m0 = ModeSpec { psk: vec![], psk_id: vec![], ..m.clone() };
+                    let mut rng = ScriptRng::new(&k.ikm_e);
+                    let o = ops.setup_sender(&m0, &k.pk_r, &info, &mut rng);
+                    if let Some(e) = no_panic(&mut out, "setup_sender(PSK mode, empty bundle)", &o) {
+                        out.fail(format!("setup_sender(PSK mode, empty bundle) failed with {:?}", e));
+                    }
+                    let enc = o.ok().map(|x| x.0).unwrap_or_else(|| k.pk_s.clone());
+                    if let Some(e) = no_panic(&mut out, "setup_receiver(PSK mode, empty bundle)", &ops.setup_receiver(&m0, &k.sk_r, &enc, &info)) {
+                        out.fail(format!("setup_receiver(PSK mode, empty bundle) failed with {:?}", e));
+                    }
+                    let mut rng = ScriptRng::new(&k.ikm_e);
+                    no_panic(&mut out, "single_shot_seal(PSK mode, empty bundle)", &ops.single_shot_seal(&m0, &k.pk_r, &info, b"pt", b"aad", &mut rng));
+                    no_panic(&mut out, "single_shot_open(PSK mode, empty bundle)", &ops.single_shot_open(&m0, &k.sk_r, &enc, &info, &[0u8; 20], b"aad"));
+                }
                 if matches!(c.suite.kem, Kem::X25519) {
                     for l in dense(if t { 700 } else { 330 }) {
                         if l == 0 {
